@@ -180,6 +180,10 @@ func main() {
 		runC06(w, *seed, *maxLen, *n)
 		return
 	}
+	if *mode == "c16" {
+		runC16(w, *seed, *maxLen, *n)
+		return
+	}
 	enc := json.NewEncoder(w)
 	g := gen.New(*seed, pool)
 	g.Hostile = *hostile
